@@ -3,3 +3,7 @@ from . import csrmux
 
 def main(tier):
     return csrmux.main("C04", tier)
+
+
+def replay(path):
+    return csrmux.replay(path)
